@@ -636,9 +636,22 @@ def robustness_scenarios(seed, count):
         if kind == "LP":
             body = render_lp(lp_tree(r, big=(k % 7 == 0)), r)
         elif kind == "MPS":
-            body = render_mps(mps_tree(r, big=(k % 7 == 0)), r)
+            t = mps_tree(r, big=(k % 7 == 0))
+            if r.random() < .15:
+                # structure the grammar-level generator never produces: the objective is declared to be one of the constraint rows
+                # (legal for the reader: "Making objective row a N-row"; with RANGES / RHS entries on that row it must fail cleanly)
+                t["objname"] = r.choice(t["rows"])["name"]
+                if r.random() < .6 and not any(e["row"] == t["objname"] for e in t["ranges"]):
+                    t["ranges"].append(dict(row=t["objname"], val=chars(r.choice(["3", "-2", "0"]))))
+            body = render_mps(t, r)
         else:
-            body = "NAME b\n XU x c1\n XL y c2\n UL x\n LL y\nENDATA\n"
+            # basis files for rob_base.lp (columns x, y; rows c1, c2): every record form over the existing and an unknown name, 0-6 records
+            recs = []
+            for _ in range(r.randint(0, 6)):
+                t = r.choice(["XU", "XL", "UL", "LL", "XU", "XL"])
+                c = r.choice(["x", "y", "x", "y", "nosuch"])
+                recs.append(" %s %s%s" % (t, c, (" " + r.choice(["c1", "c2", "c1", "c2", "nosuch"])) if t[0] == "X" else ""))
+            body = "NAME b\n" + "\n".join(recs) + ("\n" if recs else "") + "ENDATA\n"
         m = r.random()
         if m < .35:
             data = mutate_tokens(body, r).encode("latin-1", "replace")
